@@ -1,9 +1,11 @@
 import SonicSpec.Model.Hex
 import SonicSpec.Driver.Str
+import SonicSpec.Driver.Num
+import SonicSpec.Driver.Loader
 namespace SonicSpec.Driver
 
 def handlers : List (List String → Option String) :=
-  [ Str.handle ]
+  [ Str.handle, Num.handle, Loader.handle ]
 
 /-- one protocol line in (already split at tabs), one result line out -/
 def dispatch (parts : List String) : String :=
